@@ -116,7 +116,8 @@ func searchOutcome(e *jmespath.Expression, data any) (out string, res any) {
 // ---------------------------------------------------------------------------------------------
 // C06
 
-var histExprs = []string{"sort(a)", "sort_by(objs, &k)", "reverse(a)", "to_array(a)", "a[1:3]", "a[::-1]", "a[*]", "a[?@ > `1`]", "`[3,1,2]`", "sort(`[3,1,2]`)", "merge(o, o2)", "group_by(objs, &to_string(k))",
+var histExprs = []string{"group_by(objs, &g)", "sort_by(objs, &g)[*].i", "max_by(objs, &g).i", "min_by(objs, &g).i", "sort_by(objs, &sort_by(m, &g)[0].g)[*].i", "sort_by(objs, &sort_by($.objs, &g)[0].g)[*].i",
+	"group_by(objs, &sort_by(m, &g)[0].g)", "group_by(objs, &g) | keys(@) | sort(@)", "sort_by(objs, &g) | group_by(@, &g)", "map(&sort_by(m, &g)[0].g, objs)", "sort_by(objs, &max_by(m, &g).g)[*].i", "sort(a)", "sort_by(objs, &k)", "reverse(a)", "to_array(a)", "a[1:3]", "a[::-1]", "a[*]", "a[?@ > `1`]", "`[3,1,2]`", "sort(`[3,1,2]`)", "merge(o, o2)", "group_by(objs, &to_string(k))",
 	"a[]", "objs[*].k", "a[*]", "[a[*], a]", "s[*]", "a[*] | [0]", "`[1,null,2,null,3]`[*]", "a[?@]", "a[:3]", "a[1:]", "[a[1:], a]", "a[*][]", "flatten_me[]", "not_null(a[*])", "max_by(objs, &k)", "a", "o", "keys(o)", "values(o)", "items(o)", "from_items(items(o))", "zip(a, a)", "map(&@, a)", "not_null(a)", "[a, a]", "{x: a, y: o}",
 	"let $v = a in sort($v)", "a[0:2] | reverse(@)", "sort(a)[0]", "objs[?k > `1`] | sort_by(@, &k)", "join(',', s)", "sort(s)", "a || objs", "objs[].k", "o.*", "*", "avg(a)", "sum(a)", "a[:2]", "to_array(o)", "@", "$",
 	"@ == `null`", "type(@)", "a || `\"none\"`", "length(@)", "to_array(@)", "!@", "not_null(@, `1`)", "[@]", "{k: @}", "@ && a", "`1`", "'lit'"}
@@ -134,7 +135,13 @@ func judgeHistories(c *GenCtx) []Diff {
 			} else {
 				a = append(a, fmt.Sprint(r.Intn(9)))
 			}
-			objs = append(objs, fmt.Sprintf(`{"k":%d,"i":%d}`, r.Intn(3), i))
+			// "g": a string key, now and then a number after the first element (a by-function then fails midway: whatever
+			// it had collected must not show in a later call); "m": members for a by-function nested in a key expression
+			g := c.jstr(r.Pick([]string{"x", "y", "z", "w"}))
+			if i > 0 && r.Chance(12) {
+				g = fmt.Sprint(r.Intn(9))
+			}
+			objs = append(objs, fmt.Sprintf(`{"k":%d,"i":%d,"g":%s,"m":[{"g":%s},{"g":%s}]}`, r.Intn(3), i, g, c.jstr(r.Pick([]string{"p", "q", "r", "s", "t"})), c.jstr(r.Pick([]string{"p", "q", "r", "s", "t"}))))
 			s = append(s, c.jstr(r.Pick(strPool)))
 		}
 		var u []string
@@ -280,9 +287,13 @@ func judgeConcurrent(c *GenCtx) []Diff {
 		}
 		// two shared documents with different members: state leaking from a call on one into a call on the other shows
 		ds := []string{`{"a":[5,3,null,1,4],"objs":[{"k":2,"i":0},{"k":1,"i":1},{"k":2,"i":2}],"s":["b","a"],"o":{"p":1,"q":[1,2]},"o2":{"q":5}}`,
-			`{"a":[2,9],"objs":[{"k":"x","i":7}],"s":["z","y","x"],"o":{"r":true,"role":"admin"},"o2":{"w":null},"extra":1}`}
-		var shared [2]any
-		var want [2]string
+			`{"a":[2,9],"objs":[{"k":"x","i":7}],"s":["z","y","x"],"o":{"r":true,"role":"admin"},"o2":{"w":null},"extra":1}`,
+			`{"a":[1,"s",2],"objs":[{"k":"x","i":0,"g":"x"},{"k":1,"i":1,"g":3},{"k":"y","i":2,"g":"y"}],"s":["b",1,"a"],"o":{"p":1},"o2":{}}`}
+		for j := range ds[:2] {
+			ds[j] = strings.Replace(ds[j], `"objs":[`, `"objs":[{"k":0,"i":9,"g":"m","m":[{"g":"q"},{"g":"p"}]},{"k":0,"i":8,"g":"c","m":[{"g":"z"},{"g":"r"}]},{"k":0,"i":7,"g":"h","m":[{"g":"a"},{"g":"s"}]},`, 1)
+		}
+		var shared [3]any
+		var want [3]string
 		for j, d := range ds {
 			fresh, _ := parseXJSON(d)
 			want[j] = runSearch(expr, fresh) // a fresh one-shot search on a private copy, before anything is shared
@@ -297,7 +308,7 @@ func judgeConcurrent(c *GenCtx) []Diff {
 			wg.Add(1)
 			go func(i int) {
 				defer wg.Done()
-				j := (i / 3) % 2
+				j := (i / 3) % 3
 				var got string
 				switch i % 3 {
 				case 0:
